@@ -20,6 +20,7 @@ import io
 import os
 import random
 import shutil
+import urllib.request
 
 from .. import flow, loadgen, obs, packages, project, scenario, schemas, textgen, tlc
 from ..core import MachineryError
@@ -186,6 +187,112 @@ def schema_traces(rng, n_random):
     return out
 
 
+# -- schema loads against the schema-language specification (resource events of ZSchemaLang) ----------
+def schema_event_items(rng, quick):
+    """Composed worlds of C10 / C11, some of their edits, x read faults in every resource."""
+    from . import c10, c11
+    from .. import schemadoc as sd
+    out = []
+    worlds = c10.composed_worlds() + c11.worlds()
+    n_edits = 12 if quick else 80
+    for wi, w in enumerate(worlds):
+        main, files, comps = w
+        variants = [("world %d" % wi, w)]
+        for name in list(files) + list(comps):
+            base = files[name] if name in files else comps[name]
+            es = list(sd.edits(base))
+            for lab, t in rng.sample(es, min(n_edits, len(es))):
+                w2 = (main, dict(files), dict(comps))
+                (w2[1] if name in files else w2[2])[name] = t
+                variants.append(("world %d %s: %s" % (wi, name, lab), w2))
+        for lab, w2 in variants:
+            out.append((lab, "W", w2, None))
+            if lab.count(":") == 0 or rng.random() < 0.3:
+                for name in list(w2[1]) + list(w2[2]):
+                    for n in (1, 2):
+                        out.append((lab + " ; read %d of %s fails" % (n, name), "W", w2, (name, n)))
+    return out
+
+
+def replay_schema_events(v):
+    from . import c10
+    from .. import schemadoc as sd
+    import ZConfig
+    world, root = c10._W["world"], c10._W["root"]
+    i = v["d"] - 1
+    m = c10._W["mains"][i]
+    rid = m["rid"]
+    flt = None
+    if m["fault"]["n"]:
+        frid = m["fault"]["rid"]
+        target = ("package:" + frid[4:]) if frid.startswith("pkg:") else "file://" + os.path.join(root, frid)
+        # the SAX driver probes the stream with read(0) first: the specification's read 1 / 2 are reads 1 / 3
+        flt = ((lambda url, t=target: url == t), 1 if m["fault"]["n"] == 1 else 3)
+    with obs.Observer(fault=flt) as o:
+        try:
+            ZConfig.loadSchema(os.path.join(root, rid))
+            res = "ok"
+        except obs.Injected:
+            res = "fault"
+        except ZConfig.ConfigurationError:
+            res = "refused"
+        except Exception as e:
+            res = "raised " + type(e).__name__
+
+    def name(u):
+        if isinstance(u, str) and u.startswith("package:"):
+            return "pkg:" + u[len("package:"):]
+        if isinstance(u, str) and u.startswith("file://"):
+            return os.path.relpath(urllib.request.url2pathname(u[7:]), root)
+        return str(u)
+    real = [[k, name(u)] for k, u in o.events if k in ("open", "close")]
+    want = [list(e) for e in v["ev"]]
+    want_res = "ok" if v["ok"] else ("fault" if v["why"] == "read fault" else "refused")
+    why = None
+    if res.startswith("raised") and not v["any"]:
+        why = "schema load: internal error"
+    elif (res == "ok") != (want_res == "ok") or (res == "fault") != (want_res == "fault"):
+        why = "schema load: outcome"
+    elif not o.all_closed():
+        why = "schema load: resource object not closed"
+    elif real != want:
+        why = "schema load: open/close sequence"
+    if why is None:
+        return None
+    return {"clause": why, "input": {"label": c10._W["labels"][i], "main": rid, "fault": m["fault"]},
+            "spec": {"outcome": want_res, "why": v["why"], "events": want}, "observed": {"outcome": res, "events": real},
+            "class": {"clause": why}}
+
+
+def tally_schema(v):
+    return ("accepted" if v["ok"] else "read fault" if v["why"] == "read fault" else "refused") + \
+        " with %d resource(s)" % (len(v["ev"]) // 2)
+
+
+def schema_events(chk, rng, quick):
+    from . import c10
+    items = schema_event_items(rng, quick)
+    # build_batch ignores the 4th component: carry the fault in the mains after building
+    orig = c10.build_batch
+
+    def build(part, start):
+        world, mains, labels = orig(part, start)
+        for k, it in enumerate(part):
+            if it[3] is not None:
+                name, n = it[3]
+                sub = "s%d" % (start + k)
+                rid = ("pkg:%s:%s_%s" % (name[0], sub, name[1])) if isinstance(name, tuple) else "%s_%s" % (sub, name)
+                mains[k]["fault"] = {"rid": rid, "n": n}
+        return world, mains, labels
+    c10.build_batch = build
+    try:
+        c10.run_batches(chk, items, 1200, ["AcceptIffWellFormed", "StacksBalanced", "ResourcesNested", "Emit"],
+                        replay=replay_schema_events, tally=tally_schema)
+    finally:
+        c10.build_batch = orig
+    chk.note("schema_event_scenarios", len(items))
+
+
 def validate_traces(chk, traces):
     d = tlc.mkscratch("zcv-rtr-")
     path = os.path.join(d, "tr.json")
@@ -292,6 +399,7 @@ def run(chk):
                     traces.append(record_trace_special(ws, sch, it, rng.choice(["bad-utf8", "stream-read"]), rng))
         finally:
             ws.close()
+        schema_events(chk, rng, quick)
         st = schema_traces(rng, 0)
         chk.note("schema_load_traces", len(st))
         chk.note("schema_load_results", sorted({t["_what"]["result"] for t in st}))
